@@ -60,6 +60,27 @@ public:
   static std::random_device RANDOM_DEVICE;
   static std::mt19937 DEFAULT_GENERATOR;
 
+#ifdef BIOPP_BPP_CORE_VERIF
+  /**
+   * @brief Verification hook: one primitive draw ('u' uniform real, 'i' uniform integer, 'c' coin).
+   */
+  struct VerifDraw
+  {
+    char primitive;
+    double argument;
+    double result;
+  };
+
+  /**
+   * @brief Verification hook: buffer to which the primitive draws are appended (null by default: nothing is recorded).
+   */
+  static std::vector<VerifDraw>*& verifDrawRecorder()
+  {
+    static std::vector<VerifDraw>* recorder = nullptr;
+    return recorder;
+  }
+#endif
+
   /**
    * @brief Set the default generator seed.
    *
@@ -78,6 +99,14 @@ public:
   static double giveRandomNumberBetweenZeroAndEntry(double entry)
   {
     std::uniform_real_distribution<double> dis(0, entry);
+#ifdef BIOPP_BPP_CORE_VERIF
+    if (verifDrawRecorder())
+    {
+      double r = dis(DEFAULT_GENERATOR);
+      verifDrawRecorder()->push_back(VerifDraw{'u', entry, r});
+      return r;
+    }
+#endif
     return dis(DEFAULT_GENERATOR);
   }
 
@@ -89,6 +118,14 @@ public:
   static bool flipCoin(double prob = 0.5)
   {
     std::bernoulli_distribution d(prob);
+#ifdef BIOPP_BPP_CORE_VERIF
+    if (verifDrawRecorder())
+    {
+      bool r = d(DEFAULT_GENERATOR);
+      verifDrawRecorder()->push_back(VerifDraw{'c', prob, r ? 1. : 0.});
+      return r;
+    }
+#endif
     return d(DEFAULT_GENERATOR);
   }
 
@@ -105,6 +142,14 @@ public:
     if (entry == 0)
       throw Exception("RandomTools::giveIntRandomNumberBetweenZeroAndEntry. Entry must be at least 1.");
     std::uniform_int_distribution<intType> dis(0, entry - 1);
+#ifdef BIOPP_BPP_CORE_VERIF
+    if (verifDrawRecorder())
+    {
+      intType r = dis(DEFAULT_GENERATOR);
+      verifDrawRecorder()->push_back(VerifDraw{'i', static_cast<double>(entry), static_cast<double>(r)});
+      return r;
+    }
+#endif
     return dis(DEFAULT_GENERATOR);
   }
 
